@@ -790,4 +790,212 @@ theorem deleteEntry_subset {s : St} {p : RPath} {recursive dc : Bool} (inv : Tre
           exact h2 x hx
         · exact h2
 
+/-! ### recursive delete removes exactly the subtree -/
+
+/-- p is a proper descendant of d -/
+def PD (d p : RPath) : Prop := d <:+ p ∧ p ≠ d
+
+theorem pd_child_on_path {d : RPath} : ∀ t : RPath, PD d t → ∃ n, (n :: d) <:+ t := by
+  intro t
+  induction t with
+  | nil =>
+    intro h
+    exact absurd (List.suffix_nil.mp h.1).symm h.2
+  | cons b t' ih =>
+    intro h
+    rcases List.suffix_cons_iff.mp h.1 with h1 | h1
+    · exact absurd h1.symm h.2
+    · by_cases hd : t' = d
+      · subst hd; exact ⟨b, List.suffix_refl _⟩
+      · rcases ih ⟨h1, hd⟩ with ⟨n, hn⟩
+        exact ⟨n, hn.trans (List.suffix_cons b t')⟩
+
+theorem batch_loop_exact (rec : St → RPath → Option Batch) (d : RPath) (s0 : St)
+    (hrec : ∀ sa n, TreeInv sa → (∀ x ∈ sa.ents, x ∈ s0.ents) →
+      ∃ r, rec sa (n :: d) = some r ∧ TreeInv r.1 ∧ ∀ x, x ∈ r.1.ents ↔ x ∈ sa.ents ∧ ¬ PD (n :: d) x.1) :
+    ∀ (subs : List (String × Entry)) (acc : Batch), TreeInv acc.1 → (∀ x ∈ acc.1.ents, x ∈ s0.ents) →
+      ∃ r, subs.foldl (batchStep rec d) (some acc) = some r ∧ TreeInv r.1 ∧
+        ∀ x, x ∈ r.1.ents ↔ x ∈ acc.1.ents ∧ ∀ sub ∈ subs, sub.2.isDir = true → ¬ PD (sub.1 :: d) x.1 := by
+  intro subs
+  induction subs with
+  | nil =>
+    intro acc inv _
+    exact ⟨acc, rfl, inv, by simp⟩
+  | cons sub t ih =>
+    intro acc inv hsub
+    rcases acc with ⟨sa, cs, hs⟩
+    simp only [List.foldl]
+    by_cases hd : sub.2.isDir = true
+    · rcases hrec sa sub.1 inv hsub with ⟨r1, hr1, inv1, hx1⟩
+      rcases r1 with ⟨s1, cs1, hs1⟩
+      have hstep : batchStep rec d (some (sa, cs, hs)) sub = some (s1, cs ++ cs1, hs ++ hs1) := by
+        simp [batchStep, hd, hr1]
+      rw [hstep]
+      rcases ih (s1, cs ++ cs1, hs ++ hs1) inv1 (fun x hx => hsub x ((hx1 x).mp hx).1) with ⟨r, hr, invr, hxr⟩
+      refine ⟨r, hr, invr, ?_⟩
+      intro x
+      rw [hxr x]
+      simp only at hx1 ⊢
+      rw [hx1 x]
+      constructor
+      · rintro ⟨⟨h1, h2⟩, h3⟩
+        refine ⟨h1, ?_⟩
+        intro sub' hs' hd'
+        rcases List.mem_cons.mp hs' with rfl | hs'
+        · exact h2
+        · exact h3 sub' hs' hd'
+      · rintro ⟨h1, h2⟩
+        exact ⟨⟨h1, h2 sub (by simp) hd⟩, fun sub' hs' hd' => h2 sub' (List.mem_cons_of_mem _ hs') hd'⟩
+    · have hd' : sub.2.isDir = false := by simpa using hd
+      have hstep : ∃ cs' hs', batchStep rec d (some (sa, cs, hs)) sub = some (sa, cs', hs') := by
+        simp only [batchStep, hd', Bool.false_eq_true, if_false]
+        split
+        · exact ⟨_, _, rfl⟩
+        · exact ⟨_, _, rfl⟩
+      rcases hstep with ⟨cs', hs', hstep⟩
+      rw [hstep]
+      rcases ih (sa, cs', hs') inv hsub with ⟨r, hr, invr, hxr⟩
+      refine ⟨r, hr, invr, ?_⟩
+      intro x
+      rw [hxr x]
+      constructor
+      · rintro ⟨h1, h3⟩
+        refine ⟨h1, ?_⟩
+        intro sub' hs'' hd''
+        rcases List.mem_cons.mp hs'' with rfl | hs''
+        · exact absurd hd'' hd
+        · exact h3 sub' hs'' hd''
+      · rintro ⟨h1, h2⟩
+        exact ⟨h1, fun sub' hs'' hd'' => h2 sub' (List.mem_cons_of_mem _ hs'') hd''⟩
+
+theorem doBatch_exact (f : Nat) : ∀ (s : St) (d : RPath), TreeInv s →
+    (∀ x ∈ s.ents, d <:+ x.1 → x.1.length ≤ d.length + f) →
+    ∃ r, doBatch (f + 1) s d = some r ∧ TreeInv r.1 ∧ ∀ x, x ∈ r.1.ents ↔ x ∈ s.ents ∧ ¬ PD d x.1 := by
+  induction f with
+  | zero =>
+    intro s d inv hb
+    have hkids : children s d = [] := by
+      rw [List.eq_nil_iff_forall_not_mem]
+      rintro ⟨n, e⟩ hne
+      have := hb _ (mem_children.mp hne) (List.suffix_cons n d)
+      simp only [List.length_cons] at this
+      omega
+    have heq : doBatch 1 s d = some ({ s with ents := delChildren s.ents d }, [], []) := by
+      simp [doBatch, hkids]
+    refine ⟨_, heq, (batchOk_doBatch 1 s d _ inv heq).1, ?_⟩
+    intro x
+    simp only [mem_delChildren]
+    constructor
+    · rintro ⟨hx, _⟩
+      refine ⟨hx, ?_⟩
+      rintro ⟨h1, h2⟩
+      have hl := hb x hx h1
+      exact h2 (h1.eq_of_length (by have := h1.length_le; omega)).symm
+    · rintro ⟨hx, hn⟩
+      refine ⟨hx, Or.inr ?_⟩
+      intro ht
+      have hne := (inv.parent x hx).1
+      apply hn
+      cases hx1 : x.1 with
+      | nil => exact absurd hx1 hne
+      | cons a t =>
+        rw [hx1] at ht
+        simp only [List.tail_cons] at ht
+        subst ht
+        exact ⟨List.suffix_cons a t, by simp⟩
+  | succ f ih =>
+    intro s d inv hb
+    have hrec : ∀ sa n, TreeInv sa → (∀ x ∈ sa.ents, x ∈ s.ents) →
+        ∃ r, doBatch (f + 1) sa (n :: d) = some r ∧ TreeInv r.1 ∧ ∀ x, x ∈ r.1.ents ↔ x ∈ sa.ents ∧ ¬ PD (n :: d) x.1 := by
+      intro sa n inva hsub
+      apply ih sa (n :: d) inva
+      intro x hx hs
+      have := hb x (hsub x hx) ((List.suffix_cons n d).trans hs)
+      simp only [List.length_cons]
+      omega
+    rcases batch_loop_exact (doBatch (f + 1)) d s hrec (children s d) (s, [], []) inv (fun _ h => h) with ⟨r0, hr0, inv0, hx0⟩
+    rcases r0 with ⟨s', cs, hs⟩
+    have heq : doBatch (f + 1 + 1) s d = some ({ s' with ents := delChildren s'.ents d }, cs, hs) := by
+      unfold doBatch
+      rw [hr0]
+    refine ⟨_, heq, (batchOk_doBatch _ s d _ inv heq).1, ?_⟩
+    intro x
+    simp only [mem_delChildren] at hx0 ⊢
+    rw [hx0 x]
+    constructor
+    · rintro ⟨⟨hx, hkid⟩, htail⟩
+      refine ⟨hx, ?_⟩
+      rintro ⟨h1, h2⟩
+      have hne := (inv.parent x hx).1
+      cases hx1 : x.1 with
+      | nil => exact hne hx1
+      | cons a t =>
+        rw [hx1] at h1 h2 htail
+        simp only [List.tail_cons] at htail
+        have htd : t ≠ d := by
+          rcases htail with h | h
+          · cases h
+          · exact h
+        rcases List.suffix_cons_iff.mp h1 with h3 | h3
+        · exact h2 h3.symm
+        · -- t, the parent of x, lies properly below d: some child c of d is t or an ancestor of t
+          rcases pd_child_on_path t ⟨h3, htd⟩ with ⟨n, hn⟩
+          have hpar := (inv.parent x hx).2
+          rw [hx1] at hpar
+          simp only [List.tail_cons] at hpar
+          rcases hpar with h0 | ⟨dd, hdd, hdir⟩
+          · subst h0
+            have := List.suffix_nil.mp hn
+            cases this
+          · have hc : ∃ dc, (n :: d, dc) ∈ s.ents ∧ dc.isDir = true := by
+              by_cases hct : n :: d = t
+              · exact ⟨dd, hct ▸ hdd, hdir⟩
+              · exact ancestors_of_inv inv t dd hdd (n :: d) (by simp) hn hct
+            rcases hc with ⟨dc, hdc, hdcdir⟩
+            refine hkid (n, dc) (mem_children.mpr hdc) hdcdir ⟨?_, ?_⟩
+            · rw [hx1]; exact hn.trans (List.suffix_cons a t)
+            · rw [hx1]
+              intro hh
+              have := hn.length_le
+              rw [← hh] at this
+              simp only [List.length_cons] at this
+              omega
+    · rintro ⟨hx, hn⟩
+      refine ⟨⟨hx, ?_⟩, Or.inr ?_⟩
+      · intro sub _ _ hpd
+        apply hn
+        refine ⟨(List.suffix_cons sub.1 d).trans hpd.1, ?_⟩
+        intro hh
+        have := hpd.1.length_le
+        rw [hh] at this
+        simp only [List.length_cons] at this
+        omega
+      · intro ht
+        have hne := (inv.parent x hx).1
+        apply hn
+        cases hx1 : x.1 with
+        | nil => exact absurd hx1 hne
+        | cons a t =>
+          rw [hx1] at ht
+          simp only [List.tail_cons] at ht
+          subst ht
+          exact ⟨List.suffix_cons a t, by simp⟩
+
+theorem length_le_maxLen (l : List (RPath × Entry)) : ∀ x ∈ l, x.1.length ≤ maxLen l := by
+  have gen : ∀ (l : List (RPath × Entry)) (m : Nat), m ≤ l.foldl (fun m x => max m x.1.length) m ∧
+      ∀ x ∈ l, x.1.length ≤ l.foldl (fun m x => max m x.1.length) m := by
+    intro l
+    induction l with
+    | nil => intro m; simp
+    | cons y t ih =>
+      intro m
+      simp only [List.foldl]
+      have I := ih (max m y.1.length)
+      refine ⟨by omega, ?_⟩
+      intro x hx
+      rcases List.mem_cons.mp hx with rfl | hx
+      · omega
+      · exact I.2 x hx
+  exact (gen l 0).2
+
 end SwV.Lemmas.C18
